@@ -295,14 +295,96 @@ func asm15Exec(c *Ctx, op string) {
 	c.H("res:" + res)
 }
 
+// asm15Overlap: one Assembler value, two assemblies alive at the same time (a daemon serving two jobs): Run 1 (inputs
+// 1..n1), Run 2 (inputs 11..), then the teardown of 1, then of 2 — in both orders. Each teardown tears down exactly its
+// own placements, newest first. Recipe: "asm15-overlap <n1> <n2> <first torn down: 1|2>".
+func asm15Overlap(c *Ctx, op string) {
+	f := strings.Fields(op)
+	n1, n2, first := 0, 0, 1
+	fmt.Sscan(f[1], &n1)
+	fmt.Sscan(f[2], &n2)
+	fmt.Sscan(f[3], &first)
+	caseCounter++
+	base := filepath.Join(c.Work, fmt.Sprintf("ao%d", caseCounter))
+	defer rmrf(base)
+	var log []string
+	var mu sync.Mutex
+	unpackTool := func(ctx context.Context, wareID api.WareID, path string, filt api.FilesetUnpackFilter, mode rio.PlacementMode, wh []api.WarehouseLocation, mon rio.Monitor) (api.WareID, error) {
+		return wareID, nil
+	}
+	placerTool := func(src, dst fs.AbsolutePath, writable bool) (placer.Janitor, error) {
+		var tree, id int
+		fmt.Sscanf(dst.String()[len(base):], "/tree%d/d%02d/", &tree, &id)
+		return fakeJanitor{id: tree*10 + id, log: &log, mu: &mu}, nil
+	}
+	asm := stitch.NewAssemblerForVerif(osfs.New(fs.MustAbsolutePath(filepath.Join(base, "cache"))), unpackTool, placerTool)
+	run := func(tree, n int) func() error {
+		root := filepath.Join(base, fmt.Sprintf("tree%d", tree))
+		var specs []stitch.UnpackSpec
+		for i := 1; i <= n; i++ {
+			os.MkdirAll(filepath.Join(root, fmt.Sprintf("d%02d", i)), 0755)
+			specs = append(specs, stitch.UnpackSpec{Path: fs.MustAbsolutePath(fmt.Sprintf("/d%02d/t", i)), WareID: api.WareID{Type: "tar", Hash: fmt.Sprintf("hash%d%06d", tree, i)}, Filters: api.FilesetUnpackFilter_Lossless})
+		}
+		var cleanup func() error
+		func() {
+			defer func() { recover() }()
+			cleanup, _ = asm.Run(context.Background(), osfs.New(fs.MustAbsolutePath(root)), specs, fs.Metadata{Type: fs.Type_Dir, Perms: 0755, Mtime: fs.DefaultTime})
+		}()
+		return cleanup
+	}
+	c1 := run(1, n1)
+	c2 := run(2, n2)
+	c.EmitR(op, "skip", "skip")
+	if c1 == nil || c2 == nil {
+		c.PropFail("asm-panic", "an assembly of a reused Assembler did not return a teardown function", op)
+		return
+	}
+	want := func(tree, n int) string {
+		var w []string
+		for i := n; i >= 1; i-- {
+			w = append(w, fmt.Sprintf("A%d", tree*10+i))
+		}
+		return strings.Join(w, " ")
+	}
+	td := func(tree int, cl func() error, n int) {
+		mu.Lock()
+		log = nil
+		mu.Unlock()
+		func() {
+			defer func() { recover() }()
+			cl()
+		}()
+		mu.Lock()
+		got := strings.Join(log, " ")
+		mu.Unlock()
+		if got != want(tree, n) {
+			c.PropFail("teardown-order", fmt.Sprintf("two assemblies made by one Assembler were alive together; the teardown of assembly %d ran [%s], its own placements newest-first are [%s]", tree, got, want(tree, n)), op)
+		}
+	}
+	if first == 1 {
+		td(1, c1, n1)
+		td(2, c2, n2)
+	} else {
+		td(2, c2, n2)
+		td(1, c1, n1)
+	}
+	c.H("asm15-overlap")
+	c.Distinct(op)
+}
+
 func asm15Engine(c *Ctx) {
 	if ls := replayLines(); ls != nil {
 		for _, op := range ls {
 			if strings.HasPrefix(op, "asm15 ") {
 				asm15Exec(c, op)
+			} else if strings.HasPrefix(op, "asm15-overlap ") {
+				asm15Overlap(c, op)
 			}
 		}
 		return
+	}
+	for _, v := range []string{"3 2 1", "3 2 2", "2 3 1", "1 1 1", "4 4 2", "1 3 2"} {
+		asm15Overlap(c, "asm15-overlap "+v)
 	}
 	maxN := 3
 	if c.Tier == "thorough" {
